@@ -149,7 +149,7 @@ def run(ctx):
     sd = ctx.spec_dir()
     jobs = []
     bases = {}
-    nsim = 300 if ctx.tier == "thorough" else 40
+    nsim = 1200 if ctx.tier == "thorough" else 40
     for pi, pkg in enumerate(c07pkg.packages(ctx.tier)):
         core.write_ndjson(os.path.join(sd, "pkg.ndjson"),
                           [{"id": d["id"], "deps": d["deps"], "tva": d["tva"], "fwd": d["fwd"], "istype": d["istype"], "locals": d["locals"]} for d in pkg["defs"]])
